@@ -45,9 +45,28 @@ BREAKING = [
     ('funnel-strict-inverted', 'C08', MAIN + 'parser.rs', r'if self\.strict \{\n            Err\(wrapped_err\)', 'if !self.strict {\n            Err(wrapped_err)', 'modes swapped'),
     ('funnel-dropped-question-mark', 'C08', MAIN + 'parser.rs', r'self\.optional_error\(ArxmlParserError::AdditionalDataError\)\?;', 'let _ = self.optional_error(ArxmlParserError::AdditionalDataError);', 'trailing data accepted in strict mode'),
     ('checkversion-no-narrow', 'C08', MAIN + 'parser.rs', r'self\.version_compatibility &= item_version;', 'self.version_compatibility |= item_version & 0;', 'compatibility mask no longer narrowed'),
+    ('lookups-version-offset', 'C18', SPEC + 'lib.rs', r'VERSION_INFO\[current_ver_list_start \+ last_idx\]', 'VERSION_INFO[ver_list_start + last_idx]', 'mask read from the outer version list for grouped sub-elements'),
+    ('lookups-find-version-ignored', 'C18', SPEC + 'lib.rs', r'if \(name == target_name\) && \(version & version_mask != 0\) \{', 'if name == target_name {', 'find_sub_element ignores the version filter'),
+    ('lookups-dest-any', 'C18', SPEC + 'lib.rs', r'values\.contains\(&dest_value\)', '!values.is_empty()', 'verify_reference_dest accepts any DEST value for referenceable types'),
+    ('hashfunc-short-read', 'C18', SPEC + 'lib.rs', r'while data\.len\(\) >= 4 \{', 'while data.len() >= 3 {', 'slice [..4] of a 3-byte rest: panic for inputs of length 3 mod 4'),
+    ('version-fromstr-alias', 'C18', SPEC + 'autosarversion.rs', r'"AUTOSAR_00053\.xsd" => Ok\(Self::Autosar_00053\),', '"AUTOSAR_00053.xsd" => Ok(Self::Autosar_00053),\n            "AUTOSAR_LATEST.xsd" => Ok(Self::Autosar_00053),', 'from_str accepts a text that is no file name'),
+    ('regex24-limit', 'C19', SPEC + 'regex.rs', r'part\.len\(\) <= 128 && validate_regex_8\(part\)', 'part.len() <= 129 && validate_regex_8(part)', '129-byte path segment accepted'),
+    ('regex17-len', 'C19', SPEC + 'regex.rs', r's\.len\(\) == 17\n', 's.len() >= 17\n', 'longer MAC-like texts accepted'),
+    ('regex15-groups', 'C19', SPEC + 'regex.rs', r'parts\.len\(\) == 8', 'parts.len() >= 8', 'more than 8 groups accepted'),
+    ('regex4-empty', 'C19', SPEC + 'regex.rs', r'\(!s\.is_empty\(\) && s\.iter\(\)\.all\(u8::is_ascii_digit\)\) \|\| s == b"ANY"', '(s.iter().all(u8::is_ascii_digit)) || s == b"ANY"', 'empty string accepted by regex 4'),
+    ('parse-bool-swap', 'C20', MAIN + 'chardata.rs', r'"true" \| "1" => Some\(true\),\n(\s*)"false" \| "0" => Some\(false\),', '"true" | "0" => Some(true),\n\\1"false" | "1" => Some(false),', '"0" is true'),
+    ('parse-checkvalue-enum-any-entry', 'C20', MAIN + 'chardata.rs', r'if \*version_mask & \(file_version as u32\) != 0 \{\n(\s*)return true;', 'if *version_mask != 0 {\n\\1return true;', 'enum value accepted in any version'),
+    ('namecmp-drop-final', 'C14', MAIN + 'element.rs', r'\n        \.then_with\(\|\| name1\.cmp\(name2\)\)', '', 'a01 and a1 compare Equal'),
+    ('verify-end-strict-ok', 'C08', MAIN + 'parser.rs', r'self\.optional_error\(ArxmlParserError::AdditionalDataError\)\?;\n            Ok\(\(\)\)', 'if !self.strict { self.optional_error(ArxmlParserError::AdditionalDataError)?; }\n            Ok(())', 'trailing data accepted in strict mode'),
 ]
 
 HARMLESS = [
+    ('regex1-equivalent-bound', 'C19', SPEC + 'regex.rs', r's\.len\(\) >= 3 && \(s\.starts_with', 's.len() > 2 && (s.starts_with', 'equivalent comparison'),
+    ('lookups-equivalent-empty-test', 'C18', SPEC + 'lib.rs', r'if element_indices\.is_empty\(\) \{\n            return None;', 'if element_indices.len() == 0 {\n            return None;', 'equivalent emptiness test'),
+    ('attr-cmp-reversed-second-key', 'C14', 'autosar-data/src/lib.rs', r'\.then\(self\.content\.cmp\(&other\.content\)\)', '.then(other.content.cmp(&self.content))', 'still a total order consistent with equality (descending second key)'),
+    ('parse-integer-comment', 'C20', MAIN + 'chardata.rs', r'// handle this first to avoid hitting the octal case\n                T::try_from', '// zero is special: handle it first to avoid hitting the octal case\n                T::try_from', 'comment only'),
+    ('lexer-equivalent-eof-test', 'C02', MAIN + 'lexer.rs', r'if self\.bufpos == self\.buffer\.len\(\) \{\n                    break', 'if self.bufpos >= self.buffer.len() {\n                    break', 'equivalent under the invariant bufpos <= len'),
+    ('checkvalue-arm-order', 'C20', MAIN + 'chardata.rs', r'(            CharacterDataSpec::UnsignedInteger => \{\n                if let CharacterData::UnsignedInteger\(_\) = &value \{\n                    return true;\n                \}\n            \}\n)(            CharacterDataSpec::Float => \{\n                if let CharacterData::Float\(_\) = &value \{\n                    return true;\n                \}\n            \}\n)', '\\2\\1', 'two disjoint match arms swapped'),
     ('lexer-rename-local', 'C02', MAIN + 'lexer.rs', r'let mut all_whitespace = true;', 'let mut all_whitespace = true; let _unused_marker = 0;', 'added dead local'),
     ('trim-reorder', 'C02', MAIN + 'parser.rs', r'let mut len = input\.len\(\);\n    if len > 0 \{', 'let mut len = input.len();\n    if !input.is_empty() {', 'equivalent condition'),
     ('regex-doc-comment', 'C19', SPEC + 'regex.rs', r'/// validate \^\(\[0-9\]\+\|ANY\)\$', '/// validate ^([0-9]+|ANY)$ (digits or ANY)', 'comment only'),
